@@ -109,6 +109,10 @@ pub struct GraphSpec {
     /// write adjacent unwrapped `@import`s as one statement: `@import "a", "b";`
     #[serde(default)]
     pub merge_imports: bool,
+    /// file index -> text to use verbatim instead of rendering its statements (the statements still
+    /// tell the model what the text loads): for files that must be byte-identical twins
+    #[serde(default)]
+    pub raw_text: std::collections::BTreeMap<usize, String>,
 }
 
 impl GraphSpec {
@@ -119,6 +123,9 @@ impl GraphSpec {
     }
 
     pub fn render_file(&self, i: usize) -> String {
+        if let Some(t) = self.raw_text.get(&i) {
+            return t.clone();
+        }
         let f = &self.files[i];
         let mut head = String::new();
         let mut body = String::new();
@@ -506,6 +513,10 @@ pub fn spell_relative(
 /// Candidate simplifications of a graph, simplest-making first.
 pub fn graph_shrinks(g: &GraphSpec) -> Vec<GraphSpec> {
     let mut out = vec![];
+    if !g.raw_text.is_empty() {
+        // hand-built families with verbatim file texts are small already (indices must stay put)
+        return out;
+    }
     // drop a file (never the root)
     for i in (1..g.files.len()).rev() {
         let mut n = g.clone();
